@@ -26,7 +26,9 @@ ASSUMPTIONS = ["'promptly' is proved as a step bound (main observes the exit at 
                "what SIGKILL reaches (grandchildren holding the pipes) is a runtime matter: modelled by the holdOpen flag, measured on real runs"]
 LEVEL_TEXT = ("Lean 4 proofs over EVERY schedule of the repaired runner: timeout_kills_and_raises (a kill issued before the wait loop saw "
               "the command end => timed-out failure whatever warn, exactly one kill, command ended), timely_command_normal (seen ended "
-              "before any kill => never killed, never timed out, own exit status, ordinary outcome), timed_out_means_killed, "
+              "before any kill => never killed, never timed out, own exit status, ordinary outcome), timeout_reported_promptly (kill issued, "
+              "no grandchild holding the pipes => every sequence of more than mu fair rounds ends the run with the timed-out failure; "
+              "composition with C08), timed_out_means_killed, "
               "kills_at_most_once, kills_eq_issued, no_timeout_no_kill, cancelled_never_kills, expiry_kills, late_expiry_kills_nothing; the "
               "three race schedules of the former finding #26 are replayed by decide (race_*_repaired); the residual window (command ended "
               "but not yet polled when the timer fires) is witnessed by exit_unseen_at_expiry_counterexample and recorded as a known "
